@@ -3,8 +3,8 @@ import GoldModel.Gen.E1_TokenKind
 M-AST (part 1): positions, ranges, tokens and the tree type shared by the parser model,
 the outline, the linters and the scope model.  Import-free apart from the generated kinds.
 
-`Tree.node kind ident rng attrs kids` is an AST node as seen through the `IAstNode` trait:
-`kind = to_string_type()`, `ident = get_identifier()`, `rng = get_range()`,
+`Tree.node kind ident rng sel attrs kids` is an AST node as seen through the `IAstNode` trait:
+`kind = to_string_type()`, `ident = get_identifier()`, `rng = get_range()`, `sel` = the range of the declared name (selection range; `rng` when the node has none),
 `kids = get_children_ref()`; `attrs` carries the few extra facts later models need.
 `Tree.leaf t` is a token inside the *concrete* syntax value a parser returns before its
 semantic action runs (groups are nodes whose kind starts with `#`).
@@ -37,40 +37,44 @@ deriving DecidableEq, Repr, Inhabited
 
 inductive Tree where
   | leaf (t : Tok)
-  | node (kind : String) (ident : String) (rng : Range) (attrs : List String) (kids : List Tree)
+  | node (kind : String) (ident : String) (rng : Range) (sel : Range) (attrs : List String) (kids : List Tree)
 deriving Repr, Inhabited
 
 namespace Tree
 
-def none : Tree := .node "#none" "" Range.zero [] []
-def seq (l : List Tree) : Tree := .node "#seq" "" Range.zero [] l
-def list (l : List Tree) : Tree := .node "#list" "" Range.zero [] l
+def none : Tree := .node "#none" "" Range.zero Range.zero [] []
+def seq (l : List Tree) : Tree := .node "#seq" "" Range.zero Range.zero [] l
+def list (l : List Tree) : Tree := .node "#list" "" Range.zero Range.zero [] l
 
 def isNone : Tree → Bool
-  | .node "#none" _ _ _ _ => true
+  | .node "#none" _ _ _ _ _ => true
   | _ => false
 
 def isSome (t : Tree) : Bool := !t.isNone
 
 def rng : Tree → Range
   | .leaf t => t.rng
-  | .node _ _ r _ _ => r
+  | .node _ _ r _ _ _ => r
 
 def ident : Tree → String
   | .leaf t => t.value
-  | .node _ i _ _ _ => i
+  | .node _ i _ _ _ _ => i
 
 def kind : Tree → String
   | .leaf t => t.kind.name
-  | .node k _ _ _ _ => k
+  | .node k _ _ _ _ _ => k
 
 def kids : Tree → List Tree
   | .leaf _ => []
-  | .node _ _ _ _ k => k
+  | .node _ _ _ _ _ k => k
 
 def attrs : Tree → List String
   | .leaf _ => []
-  | .node _ _ _ a _ => a
+  | .node _ _ _ _ a _ => a
+
+def sel : Tree → Range
+  | .leaf t => t.rng
+  | .node _ _ _ s _ _ => s
 
 def tok? : Tree → Option Tok
   | .leaf t => some t
